@@ -815,7 +815,9 @@ def switches_on_value_of(fn, call, through=None):
         for r in roots:
             if r["k"] == "call" and r["call"].bb == call.bb:
                 path = [e.split(":")[2] for e in r["proj"] if e.startswith("d:") and len(e.split(":")) > 2]
-                out.append({"site": site, "info": info, "path": path, "proj": r["proj"]})
+                # nesting depth of the tested value inside the call's result: downcasts, plus the `?`s the value came through
+                depth = len(path) + len([e for e in r.get("trail", []) if e.startswith("d:") and e.endswith("Continue")])
+                out.append({"site": site, "info": info, "path": path, "proj": r["proj"], "depth": depth})
                 break
     return out
 
@@ -911,7 +913,7 @@ def try_branches_on(fn, poll_call):
             if any(b["call"] is not None and b["call"].target == sw["site"].bb for b in out):
                 continue
             seen_sw.add(key)
-            out.append({"call": None, "cont_edge": ce, "break_edge": be, "switch": sw, "depth": len(sw["path"])})
+            out.append({"call": None, "cont_edge": ce, "break_edge": be, "switch": sw, "depth": sw.get("depth", len(sw["path"]))})
     return out
 
 
